@@ -34,7 +34,8 @@ FAMS = ["single:conv@8", "single:dw@8", "single:maxpool@8", "single:avgpool@8", 
         "single:splitv@8", "single:slice_op@8", "single:unpack_pack@8", "single:sqdiff@8", "single:quant_chain", "single:softmax@8", "single:softmax@8", "single:argmax@8",
         "single:mean_big@8", "single:pad_pool@8", "single:pad_pool@8", "single:slice_masks@8", "single:dw_mult@8", "single:conv_1d@8", "ew_chain", "concat_split",
         "single:exp@8", "single:rsqrt@8", "rewrite_patterns", "rewrite_patterns",
-        "single:conv_groups@8", "single:conv_groups@8", "single:pool_global_stride@8"]
+        "single:conv_groups@8", "single:conv_groups@8", "single:pool_global_stride@8",
+        "single:ew_self@8", "single:concat_dup@8", "single:ew_bcast2@8", "single:split_partial@8", "single:reshape_fan@8"]
 if os.environ.get("VERIF_C01_FAMS"):        # development aid: restrict the generated part to some families
     FAMS = os.environ["VERIF_C01_FAMS"].split(",")
 
@@ -322,7 +323,7 @@ def run(tier):
     res = vlib.Result("C01", tier, "other")
     b = vlib.build_property("C01")
     okx, xlog = vlib.build_extraction("npuExec")
-    n = 400 if tier == "quick" else 2900
+    n = 440 if tier == "quick" else 3200
     max_macs = 1200000 if tier == "quick" else 30000000
     rng = random.Random("c01/%d" % vlib.seed())
     jobs = compiles.corpus_jobs(capture=False) + compiles.plan(FAMS, n, vlib.seed(), tag="c01", capture=False)
